@@ -22,8 +22,9 @@ SYS = {
     'TTBCR': ('ttbcr', 'reg'), 'DACR': ('dacr', 'reg'), 'PRRR': ('prrr', 'reg'), 'NMRR': ('nmrr', 'reg'),
     'FCSEIDR': ('fcseidr', 'reg'), 'MPUIR': ('mpuir', 'reg'), 'TEECR': ('teecr', 'reg'), 'HDCR': ('hdcr', 'reg'),
     'JMCR': ('jmcr', 'reg'), 'MAIR0': ('mair0', 'int'), 'MAIR1': ('mair1', 'int'),
+    'VTCR': ('vtcr', 'reg'), 'HTCR': ('htcr', 'reg'), 'HMAIR0': ('hmair0', 'int'), 'HMAIR1': ('hmair1', 'int'),
 }
-SYS64 = {'TTBR0': 'ttbr0_64', 'TTBR1': 'ttbr1_64'}      # low word modelled, high word must not change
+SYS64 = {'TTBR0': 'ttbr0_64', 'TTBR1': 'ttbr1_64', 'VTTBR': 'vttbr', 'HTTBR': 'httbr'}      # low word modelled, high word must not change
 MPU = [('DRSR', 'drsrs', 'reg'), ('DRBAR', 'drbars', 'int'), ('DRACR', 'dracrs', 'reg')]
 
 BASE_CFG = {
